@@ -47,7 +47,8 @@ CHECKS = {
     "PARTIAL. Proved for all strongly convex QPs, boxes and dimensions: an approximate KKT pair with tolerances (eps, delta) - what Converged certifies (C01) - satisfies mu|x-x*|^2 <= eps|x-x*|_1 + delta|y-y*|_1 against the exact KKT pair (monotonicity of box normal cones, Hoelder). "
     "LIVENESS proved for the whole-loop models of PANOC and ZeroFPR (Panoc.v / ZeroFpr.v, tied to the code by whole-run correspondence) over R, for EVERY direction provider: if psi has a global quadratic upper bound (Lf <= L_max), is bounded below on C, the oracles are coherent, tolerance factors are 0 and nobody calls stop(), the run returns Converged within an explicit N iterations "
     "(ProjGradNorm/FPRNorm criteria; ApproxKKT under a Lipschitz gradient), NoProgress and MaxIter are excluded, and for a strongly convex box-constrained QP the returned point satisfies the distance bound (end-to-end corollary). The same is proved for the SHIPPED stacks: PANOC and ZeroFPR with LBFGSDirection, StructuredLBFGSDirection, AndersonDirection and NoopDirection as state machines inside the loop (PanocDirLive.v / ZeroFprDirLive.v; the only provider-specific obligation is that no call throws and apply returns an n-vector). "
-    "NOT proved: liveness of PANTR, FISTA and of the outer ALM loop; explored on the implementation: every shipped stack on generated well-posed QPs must converge and meet the bound against (x*, y*) from an independent active-set solve verified by its KKT conditions; PANOC/ZeroFPR runs must stay within the proved iteration bound.",
+    "NOT proved: liveness of PANTR, FISTA and of the outer ALM loop; explored on the implementation: every shipped stack on generated well-posed QPs must converge and meet the bound against (x*, y*) from an independent active-set solve verified by its KKT conditions; PANOC/ZeroFPR runs must stay within the proved iteration bound. "
+    "For FISTA (whole-loop model FistaLoop.v) the ITERATES are proved to converge to the minimiser when the smooth part is mu-strongly convex: quadratic growth (mu/2)|x-x*|^2 <= F(x)-F* (from minimality along the segment) composed with C08's rate gives |xhat_k-x*|^2 <= 4|x0-x*|^2/(mu gamma_k (k+1)^2) at every progress record of every run (O(1/k) with disable_acceleration) and <= eps from an explicitly computed K(eps) on, in every Lipschitz mode (C02_fista_iterates_*, FistaLoopConv.v; convergence of the iterates, not the Converged status).",
     "4/C02", TB_REALS + "liveness of ALM / PANTR / FISTA by exploration only (stated in the evidence); reference solutions from Python active-set enumeration accepted only with KKT residual < 1e-8; known findings: ALM over the no-op direction (plain forward-backward) stalls on some problems.",
     "Coq proofs of the distance bound and of PANOC/ZeroFPR liveness on the whole-loop models + exploration of convergence of all stacks against an independent reference"),
  "C03": C("proof",
